@@ -7,3 +7,13 @@ import "verif/harness/internal/core"
 func init() {
 	core.Extend("C10", "base line without a crash ("+c01AttrRule+")", func(c *core.Ctx) { c01AttrRun(c, "C10") })
 }
+
+// the same for a COMMIT that is interrupted instead of killed: what it leaves is the old or the complete new table
+func init() {
+	core.Extend("C10", "base line without a crash ("+c01CommitCancelRule+")", func(c *core.Ctx) { c01CommitCancelRun(c, "C10") })
+}
+
+// C02: a table file is written whole or not at all - also when the writing is interrupted
+func init() {
+	core.Extend("C02", "interrupted writes ("+c01CommitCancelRule+")", func(c *core.Ctx) { c01CommitCancelRun(c, "C02") })
+}
